@@ -650,14 +650,26 @@ class Executor:
                 self.obligations.append(("no panic: call to " + callee, list(pc), "false", f.name))
                 return []
             outs = []
-            for (extra_pc, val) in self.call(callee, args, pc, depth):
-                e2 = self.copy_env(env)
+            results = self.call(callee, args, pc, depth, f=f, argstr=argstr, env=env)
+            for r in results:
+                extra_pc, val = r[0], r[1]
+                extra_pc = [c for c in extra_pc if c != "true"]
+                if len(results) == 1:
+                    e2 = env
+                else:
+                    e2 = self.copy_env(env)
+                if len(r) == 4:
+                    # model asks for a write-back through a reference argument: redo it in the copied env
+                    idx = [i for i, a in enumerate(args) if a is r[2]][0]
+                    a_text = [a for a in split_top(argstr, ",") if a.strip()][idx]
+                    ref2 = self.operand(f, a_text, e2)
+                    ref2[1][0] = r[3]
                 self.write_place(f, dst, e2, val)
                 outs.append(("go", ret_bb, e2, pc + extra_pc))
             return outs
         raise MirError("unsupported terminator: " + t)
 
-    def call(self, callee, args, pc, depth):
+    def call(self, callee, args, pc, depth, f=None, argstr=None, env=None):
         """-> [(extra path condition, return value)]"""
         key = normalise_callee(callee)
         self.current_callee = callee
